@@ -6,6 +6,7 @@ package c14
 
 import (
 	"fmt"
+	"hash/fnv"
 	"os"
 	"regexp"
 	"sort"
@@ -151,6 +152,7 @@ type checker struct {
 	failsDropped                       int
 	neoRejects                         map[string]int
 	perFeature                         map[string]int
+	famStats                           map[string]*famStat
 	nViol                              int64
 }
 
@@ -307,6 +309,24 @@ func (ck *checker) runUnits(b *batch, units []*unit) {
 	for _, u := range units {
 		ck.perFeature[featureOf(u)]++
 	}
+	for i := range p.Fns {
+		fam := familyOf(unitOf(units, p, i))
+		st := ck.famStats[fam]
+		if st == nil {
+			st = &famStat{outcomes: map[uint64]struct{}{}}
+			ck.famStats[fam] = st
+		}
+		st.functions++
+		for t, o := range ev.GoOut[i] {
+			st.calls++
+			if t < len(ev.VMOut[i]) && ev.VMOut[i][t] == o {
+				st.agree++
+			}
+			h := fnv.New64a()
+			h.Write([]byte(o))
+			st.outcomes[h.Sum64()] = struct{}{}
+		}
+	}
 	ck.mu.Unlock()
 	if len(ev.Mism) == 0 {
 		if len(units) > 0 {
@@ -332,6 +352,27 @@ func (ck *checker) runUnits(b *batch, units []*unit) {
 func (ck *checker) report() {
 	sort.SliceStable(ck.fails, func(i, j int) bool { return ck.fails[i].u.seq < ck.fails[j].u.seq })
 	seen := map[*unit]bool{}
+	if path := os.Getenv("C14_PIN"); path != "" { // development aid: record the behaviour of the shapes listed under named root causes
+		var sb strings.Builder
+		done := map[*unit]bool{}
+		for i := range ck.fails {
+			f := &ck.fails[i]
+			if f.u.kind == "shape" && f.u.shape.Cause != f.u.shape.Tag && !done[f.u] {
+				done[f.u] = true
+				fmt.Fprintf(&sb, "\t%q: %q,\n", f.u.shape.Family+"/"+f.u.shape.Tag, symptomOf(&f.m))
+			}
+		}
+		failed := map[string]bool{}
+		for u := range done {
+			failed[u.shape.Family+"/"+u.shape.Tag] = true
+		}
+		for _, sh := range allShapes(ck.r.Thorough()) {
+			if sh.Cause != sh.Tag && !failed[sh.Family+"/"+sh.Tag] {
+				fmt.Fprintf(&sb, "\t%q: %q,\n", sh.Family+"/"+sh.Tag, "agree") // listed under a cause, but this combination does not show it
+			}
+		}
+		_ = os.WriteFile(path, []byte(sb.String()), 0o644)
+	}
 	for i := range ck.fails {
 		f := &ck.fails[i]
 		if seen[f.u] {
@@ -342,6 +383,12 @@ func (ck *checker) report() {
 	}
 }
 
+// symptomOf: what a failing shape looked like - kind of disagreement, number of
+// failing argument tuples, both outcomes of the first failing tuple.
+func symptomOf(m *mismatch) string {
+	return fmt.Sprintf("%s|%d|%s|go=%s|vm=%s", m.Kind, m.Count, m.Args, m.Go, m.VM)
+}
+
 var outMu sync.Mutex
 var outAgg = map[string]int{}
 
@@ -349,6 +396,22 @@ func (ck *checker) outcomeN(k string, n int) {
 	outMu.Lock()
 	outAgg[k] += n
 	outMu.Unlock()
+}
+
+// famStat: measured per family (shape family or grammar frame).
+type famStat struct {
+	functions, calls, agree int
+	outcomes                map[uint64]struct{} // distinct outcomes of the reference side
+}
+
+func familyOf(u *unit) string {
+	switch u.kind {
+	case "shape":
+		return "shape:" + u.shape.Family
+	case "grammar":
+		return "frame-" + u.fr.name
+	}
+	return "frame-X"
 }
 
 func featureOf(u *unit) string {
@@ -403,9 +466,19 @@ func (ck *checker) failing(b *batch, u *unit, m *mismatch) {
 	sig := m.Kind + "|" + diagClass(m)
 	if u.kind == "shape" {
 		s := u.shape
-		group := s.Family + "/" + s.Cause + "/" + m.Kind
+		cause := s.Cause
 		if s.Cause != s.Tag {
-			group = s.Family + "/" + s.Cause // a named root cause: one report whatever the symptom
+			// a shape listed under a named root cause must still show the behaviour that
+			// was recorded for it (pinned_test.go): anything else is a difference of its
+			// own and is reported under the shape's own key
+			if want, ok := pinnedSymptoms[s.Family+"/"+s.Tag]; ok && want != symptomOf(m) {
+				cause = s.Tag + "/not-the-known-behaviour"
+			}
+		}
+		named := cause == s.Cause && s.Cause != s.Tag
+		group := s.Family + "/" + cause + "/" + m.Kind
+		if named {
+			group = s.Family + "/" + s.Cause // a named root cause with its known behaviour: one report
 		}
 		ck.mu.Lock()
 		if f, ok := ck.shapeSeen[group]; ok {
@@ -414,7 +487,7 @@ func (ck *checker) failing(b *batch, u *unit, m *mismatch) {
 			ck.nSuppressed.Inc()
 			return
 		}
-		if s.Cause == s.Tag && ck.famCount[s.Family] >= 8 {
+		if !named && ck.famCount[s.Family] >= 8 {
 			ck.mu.Unlock()
 			ck.nSuppressed.Inc()
 			return
@@ -468,9 +541,9 @@ func (ck *checker) failing(b *batch, u *unit, m *mismatch) {
 			ck.harness(fmt.Sprintf("shape %s/%s fails inside its file but not alone (%s)", s.Family, s.Tag, m.Kind))
 			return
 		}
-		key := fmt.Sprintf("%s/%s:%s", s.Family, s.Cause, shortHash(s.Tmpl))
+		key := fmt.Sprintf("%s/%s:%s", s.Family, cause, shortHash(s.Tmpl))
 		f.key = key
-		if ck.r.Violation(key, violDetail{Kind: "shape", Feature: s.Family + "/" + s.Cause, Mismatch: *mm, Source: minSrc, Prog: sp, FnName: sp.Fns[mm.Fn].Name, ShapeTag: s.Tag}) {
+		if ck.r.Violation(key, violDetail{Kind: "shape", Feature: s.Family + "/" + cause, Mismatch: *mm, Source: minSrc, Prog: sp, FnName: sp.Fns[mm.Fn].Name, ShapeTag: s.Tag}) {
 			atomic.AddInt64(&ck.nViol, 1)
 		} else {
 			ck.mu.Lock()
@@ -858,12 +931,16 @@ func (ck *checker) buildBatches(thorough bool, stats map[string]any) []*batch {
 		{frameN(thorough), vk.Pick(ck.r, 3, 3), 2}, // gen2_test.go
 		{frameL(thorough), vk.Pick(ck.r, 3, 3), 2},
 	}
+	if thorough {
+		// the largest set (frame I, three nodes) last: a capped run then still has the other frames complete
+		frames = []fb{frames[3], frames[4], frames[1], frames[2], frames[0]}
+	}
 	var alpha []string
 	enumerated, rejected := map[string]int{}, map[string]int{}
 	maxSize := 0
 	for _, f := range frames {
 		note := ""
-		if !thorough && (f.fr.name == "I" || f.fr.name == "L" || f.fr.name == "N") {
+		if f.fr.name == "L" || (!thorough && (f.fr.name == "I" || f.fr.name == "N")) {
 			note = " (bodies of 3 nodes: only those nested as a chain)"
 		}
 		alpha = append(alpha, fmt.Sprintf("frame %s: %d atoms, %d compound productions, %d conditions, <=%d nodes, nesting <=%d%s",
@@ -879,7 +956,7 @@ func (ck *checker) buildBatches(thorough bool, stats map[string]any) []*batch {
 			}
 			var us []*unit
 			n := 0
-			chainOnly := !thorough && (f.fr.name == "I" || f.fr.name == "L" || f.fr.name == "N") && size == 3 // quick: at three nodes only the nesting chains
+			chainOnly := size == 3 && (f.fr.name == "L" || (!thorough && (f.fr.name == "I" || f.fr.name == "N"))) // frame L: its composite atoms make the chains the cases that matter // quick: at three nodes only the nesting chains
 			f.fr.enumerate(size, f.depth, func(body []*node) {
 				if chainOnly && !isChain(body) {
 					return
@@ -931,7 +1008,7 @@ func TestCheck(t *testing.T) {
 	r := vk.Start("C14", "model_checking", 180*time.Second, 24*time.Minute)
 	setupEnv()
 	defer vk.CleanScratch()
-	ck := &checker{r: r, shapeSeen: map[string]*finding{}, famCount: map[string]int{}, neoRejects: map[string]int{}, perFeature: map[string]int{}}
+	ck := &checker{r: r, shapeSeen: map[string]*finding{}, famCount: map[string]int{}, neoRejects: map[string]int{}, perFeature: map[string]int{}, famStats: map[string]*famStat{}}
 	if r.Replay != "" {
 		replay(ck)
 		return
@@ -1011,6 +1088,11 @@ func TestCheck(t *testing.T) {
 		"manifest_method_sets_compared":                 int(nMetaSets.Get()),
 		"debug_info_ranges_checked":                     int(nMetaRanges.Get()),
 	}
+	byFam := map[string]any{}
+	for k, st := range ck.famStats {
+		byFam[k] = map[string]int{"functions": st.functions, "calls": st.calls, "calls_agreeing": st.agree, "distinct_reference_outcomes": len(st.outcomes)}
+	}
+	cov["by_family"] = byFam
 	for k, v := range stats {
 		cov[k] = v
 	}
